@@ -1,4 +1,8 @@
 import XmpProofs.Resource
+import XmpProofs.StartFail
+import XmpProofs.Smix
+import XmpProofs.CloseFail
+import XmpProps.C06
 /-!
 # C04 — Failed or faulted operations are atomic: no leak, no residue, context reusable
 
@@ -163,12 +167,123 @@ theorem C04_reusable (out : LoadOutcome) (hout : out ≠ .ok) (built : Module) (
   | prepareScanFail => exact he _ _
   | scanFail => exact he _ _
 
-/- Full statement of reusability after a failed **start** (kept as the goal; not proved at the
-model level): `startPlayer cfg pp true r.2.1 w'` after a failure `r` yields the same return code,
-state and ledger as on a fresh LOADED context.  What is proved: `C04_start_atomic` gives state
-LOADED, no owned player block and an unchanged ledger; the stale `maxvoc/virt_channels` values are
-overwritten by `virtInit`.  The harness checks this dynamically (PCM digest of a normal start+play
-on the same context against a fresh context after every faulted start). -/
+/-- **Reusable after failed starts (ledger level).**  A LOADED context that owns no player block -
+which is what every failed xmp_start_player leaves (`C04_start_atomic`, `C04_failed_start_invariant`),
+with whatever stale `maxvoc` / `virt_channels` / table lengths - behaves under the next
+xmp_start_player exactly like the fresh LOADED context, for every module shape and every allocation
+oracle: same return code, literally the same world (heap ledger, allocator call count, close log,
+descriptors, invalid-operation count), same state; the same player record when the call succeeds, and a
+player owning nothing when it fails again. -/
+theorem C04_reusable_start_gen (cfg : StartCfg) (hs : cfg.Sound = true) (pp : StartParams) (c : Ctx) (w : World)
+    (hst : c.state = .loaded) (hp : c.player.toks = []) :
+    let a := startPlayer cfg pp true c w
+    let b := startPlayer cfg pp true { state := .loaded, player := {} } w
+    a.1 = b.1 ∧ a.2.2 = b.2.2 ∧ a.2.1.state = b.2.1.state ∧ a.2.1.player.toks = b.2.1.player.toks ∧
+      (¬ a.1 < 0 → a.2.1 = b.2.1) :=
+  start_reuse cfg hs pp c w hst hp
+
+/-- the invariant behind it is kept by every failing start, so any number of failed starts may precede -/
+theorem C04_failed_start_invariant (cfg : StartCfg) (hs : cfg.Sound = true) (pp : StartParams) (c : Ctx) (w : World)
+    (hst : c.state = .loaded) (hp : c.player.toks = []) :
+    let r := startPlayer cfg pp true c w
+    r.1 < 0 → r.2.1.state = .loaded ∧ r.2.1.player.toks = [] ∧ r.2.2.bad = w.bad ∧ ∀ u, r.2.2.live.count u = w.live.count u := by
+  intro r h
+  obtain ⟨a, b, _⟩ := start_atomic_gen cfg hs pp c w hst hp
+  exact ⟨(b h).1, (b h).2.1, a, (b h).2.2⟩
+
+/-- **C04, reusable after a failed start**: after xmp_start_player failed (any module shape `pp`, any
+allocation oracle), the same context starts - with any module shape `pp'` and any oracle `w'` - exactly
+as a fresh LOADED context does. -/
+theorem C04_reusable_start (cfg : StartCfg) (hs : cfg.Sound = true) (pp pp' : StartParams) (w w' : World) :
+    let r := startPlayer cfg pp true { state := .loaded, player := {} } w
+    r.1 < 0 →
+    let a := startPlayer cfg pp' true r.2.1 w'
+    let b := startPlayer cfg pp' true { state := .loaded, player := {} } w'
+    a.1 = b.1 ∧ a.2.2 = b.2.2 ∧ a.2.1.state = b.2.1.state ∧ a.2.1.player.toks = b.2.1.player.toks ∧
+      (¬ a.1 < 0 → a.2.1 = b.2.1) := by
+  intro r h
+  obtain ⟨h1, h2, _⟩ := C04_failed_start_invariant cfg hs pp { state := .loaded, player := {} } w rfl rfl h
+  exact start_reuse cfg hs pp' r.2.1 w' h1 h2
+
+/-- non-trivial instance: the first start fails inside libxmp_virt_on (4th allocator call, an Amiga
+module), which leaves `maxvoc = 4` with a NULL voice array; the second start on that context (a module
+with channel extras, 6th call failing / no failure) equals the start on a fresh context -/
+example :
+    let r := startPlayer startCfgFixed { amiga := true, maxvoc := 4, virtch := 4 } true { state := .loaded }
+      { oracle := [true, true, true, false] }
+    r.1 < 0 ∧ r.2.1.player.maxvoc = 4 ∧ r.2.1.player.voiceArray = none ∧ r.2.1.player ≠ {} ∧
+    (startPlayer startCfgFixed { extras := true, maxvoc := 2, virtch := 3 } true r.2.1 {}).2.1.state = .playing ∧
+    (startPlayer startCfgFixed { extras := true, maxvoc := 2, virtch := 3 } true r.2.1 { oracle := List.replicate 6 true ++ [false] }).2.2.live = [] := by
+  decide +kernel
+
+/-- the stricter entry state of the mixer_on failure branch matters: a table that runs libxmp_virt_off
+after a failed libxmp_mixer_on (`goto err1`) is harmless on a fresh context but walks a NULL voice
+array on the residue of an earlier failed start -/
+def startCfg_virtOffAfterMixer : StartCfg := .ofTables
+  [("mixer_on", "err1", true), ("virt_on", "err", true), ("flow_loop", "err1", true), ("xc_data", "err1", true),
+   ("channel_extras", "err2", false)]
+  [("err2", ["channel_extras", "xc_data"], true), ("err1", ["flow_loop", "virt_off"], false), ("err", ["mixer_off"], false)]
+
+theorem C04_reuse_needs_strict_entry :
+    startCfg_virtOffAfterMixer.Sound = false ∧
+    (startPlayer startCfg_virtOffAfterMixer { maxvoc := 4, virtch := 4 } true { state := .loaded } { oracle := [false] }).2.2.bad = 0 ∧
+    (let r := startPlayer startCfg_virtOffAfterMixer { maxvoc := 4, virtch := 4 } true { state := .loaded } { oracle := [true, true, false] }
+     (startPlayer startCfg_virtOffAfterMixer { maxvoc := 4, virtch := 4 } true r.2.1 { oracle := [false] }).2.2.bad = 1) := by
+  decide +kernel
+
+/-- **xmp_start_player on a PLAYING context is atomic** (the implicit xmp_end_player first): for every
+sound table, module shape and allocation oracle, from any PLAYING context that owns its player blocks
+(`Owns … B`: the heap is the frame `B` plus those blocks) and whose voice table can be walked: nothing is
+freed twice; on failure the code is negative, the state is LOADED - the valid earlier state -, no player
+block is owned and the heap is exactly the frame; on success the state is PLAYING and the heap is the
+frame plus the new player's blocks. -/
+theorem C04_restart_atomic (cfg : StartCfg) (hs : cfg.Sound = true) (pp : StartParams) (c : Ctx) (w : World)
+    (hp : c.state = .playing) (hv : c.player.voiceArray.isSome ∨ c.player.paula = [])
+    (hsm : pp.smixOk = true) (B : List Tok) (hO : Owns c.player w B) :
+    let r := startPlayer cfg pp true c w
+    r.2.2.bad = w.bad ∧
+    (r.1 < 0 → r.2.1.state = .loaded ∧ r.2.1.player.toks = [] ∧ ∀ u, r.2.2.live.count u = B.count u) ∧
+    (¬ r.1 < 0 → r.1 = 0 ∧ r.2.1.state = .playing ∧ Owns r.2.1.player r.2.2 B) := by
+  obtain ⟨a, b, c'⟩ := restart_atomic cfg hs pp c w hp hv hsm B hO
+  exact ⟨a, b, fun h => ⟨(c' h).1, (c' h).2.1, (c' h).2.2.1⟩⟩
+
+/-- the hypotheses of `C04_restart_atomic` hold after every successful start: `start ; start` with two
+arbitrary oracles (`o` replaces the allocator's future after the first call) needs no hypothesis; a
+channel-count overflow (`smixOk = false`) is refused before anything is touched -/
+theorem C04_restart_after_start (cfg : StartCfg) (hs : cfg.Sound = true) (pp pp' : StartParams) (w : World) (o : List Bool) :
+    let r := startPlayer cfg pp true { state := .loaded, player := {} } w
+    ¬ r.1 < 0 →
+    let r' := startPlayer cfg pp' true r.2.1 { r.2.2 with oracle := o }
+    r'.2.2.bad = w.bad ∧
+    (r'.1 < 0 → (r'.2.1.state = .loaded ∨ (pp'.smixOk = false ∧ r'.2.1 = r.2.1 ∧ r'.2.2.live = r.2.2.live)) ∧
+       (pp'.smixOk = true → r'.2.1.player.toks = [] ∧ ∀ u, r'.2.2.live.count u = w.live.count u)) ∧
+    (¬ r'.1 < 0 → r'.1 = 0 ∧ r'.2.1.state = .playing ∧ Owns r'.2.1.player r'.2.2 w.live) := by
+  intro r h r'
+  obtain ⟨a, _, c⟩ := start_atomic_gen cfg hs pp { state := .loaded, player := {} } w rfl rfl
+  obtain ⟨_, c2, c3, c4, _⟩ := c h
+  change r.2.2.bad = w.bad at a
+  change r.2.1.state = .playing at c2
+  change Owns r.2.1.player r.2.2 w.live at c3
+  change r.2.1.player.voiceArray.isSome = true at c4
+  cases hsm : pp'.smixOk
+  · have e : r' = (errInvalid, r.2.1, { r.2.2 with oracle := o }) := by
+      show startPlayer cfg pp' true r.2.1 { r.2.2 with oracle := o } = _
+      unfold startPlayer
+      simp [hsm, c2]
+    rw [e]
+    refine ⟨a, fun _ => ⟨Or.inr ⟨rfl, rfl, rfl⟩, fun h => by simp at h⟩, fun h => absurd (by decide : errInvalid < 0) h⟩
+  · obtain ⟨x, y, z⟩ := restart_atomic cfg hs pp' r.2.1 { r.2.2 with oracle := o } c2 (Or.inl c4) hsm w.live c3
+    exact ⟨by rw [x]; exact a, fun h => ⟨Or.inl (y h).1, fun _ => ⟨(y h).2.1, (y h).2.2⟩⟩,
+      fun h => ⟨(z h).1, (z h).2.1, (z h).2.2.1⟩⟩
+
+/-- non-trivial instance: playing an Amiga module with channel extras, restarted with a failing 5th
+allocation: everything of the old and of the half-built new player is released, state LOADED -/
+example :
+    let pp : StartParams := { amiga := true, extras := true, maxvoc := 3, virtch := 3 }
+    let r := startPlayer startCfgFixed pp true { state := .loaded } {}
+    let r' := startPlayer startCfgFixed pp true r.2.1 { r.2.2 with oracle := List.replicate 4 true ++ [false] }
+    r.2.1.state = .playing ∧ r.2.2.live.length = 12 ∧ r'.1 < 0 ∧ r'.2.1.state = .loaded ∧ r'.2.2.live = [] ∧ r'.2.2.bad = 0 := by
+  decide +kernel
 
 /-- **Temp files.**  For every table of make_temp_file passing `TempCfg.Sound` (regenerated from
 tempfile.c and evaluated on every run), every outcome of mkstemp/fdopen/helper/fseek/get_size and
@@ -219,4 +334,307 @@ example :
     ((streamLife .path {} true [(true, true), (false, true)] {}).2.openFds = 0) ∧
     ((streamLife .cb {} true [] { oracle := [true, false] }).2.closed = [.callback]) := by decide +kernel
 
+/-! ## closing that reports an error -/
+
+/-- **Stream ownership under close failures.**  When `hio_reopen_*` switch the handle to the new stream
+whatever closing the old one reported (`switchAnyway = true`; the flag of the tree is regenerated from
+hio.c as `Gen.StartCfg.reopenIgnoresCloseResult`), `C04_stream_ownership` holds for EVERY pattern of
+failing closes as well (`rs`: depacker steps, each with "the reopen succeeds" and "closing the old stream
+reports an error"): caller's FILE never closed, every owned FILE and the callback exactly once, no
+descriptor, block or invalid free left. -/
+theorem C04_stream_ownership_close_failures (e : Entry) (cb : Callbacks) (sizeOk : Bool)
+    (rs : List (Bool × Bool × Bool)) (w : World) :
+    let r := streamLifeR true e cb sizeOk rs w
+    (r.2.closed.count .callerFile = w.closed.count .callerFile) ∧
+    (r.2.closed.count .callback = w.closed.count .callback + (if e = .cb ∧ cb.hasClose = true then 1 else 0)) ∧
+    r.2.openFds = w.openFds ∧ r.2.bad = w.bad ∧ (∀ u, r.2.live.count u = w.live.count u) := by
+  rw [streamLifeR_true]
+  exact stream_ownership e cb sizeOk (dropFails rs) w
+
+/-- the variant that bails out behaves the same as long as no close fails … -/
+theorem C04_reopen_bailing_ok_without_failures (e : Entry) (cb : Callbacks) (sizeOk : Bool)
+    (rs : List (Bool × Bool × Bool)) (w : World) (h : ∀ r ∈ rs, r.2.2 = false) :
+    streamLifeR false e cb sizeOk rs w = streamLife e cb sizeOk (dropFails rs) w := by
+  unfold streamLifeR streamLife
+  split <;> simp_all [reopenSeqR_nofail]
+
+/-- **Finding `own:double_fclose`** … but when the fclose inside hio_reopen_mem (a path load through an
+internal depacker) or hio_reopen_file (through an external helper) reports an error, the handle keeps
+referring to the FILE that fclose has released and hio_close closes it a second time: two close events
+on the owned FILE, one descriptor too many released.  Replayed on the real code by the harness
+(`closefault`, gzip'd module by path).  proposed_fixes/c04-hio-reopen-close-failure.diff -/
+theorem C04_reopen_double_close :
+    ((streamLifeR false .path {} true [(true, true, true)] {}).2.closed.count .ownedFile = 2) ∧
+    ((streamLifeR false .path {} true [(false, true, true)] {}).2.closed.count .ownedFile = 2) ∧
+    ((streamLifeR true .path {} true [(true, true, true)] {}).2.closed = [.ownedFile]) ∧
+    ((streamLifeR true .path {} true [(false, true, true)] {}).2.closed = [.tempFile, .ownedFile]) ∧
+    ((streamLifeR true .path {} true [(true, true, true)] {}).2.live = []) := by decide +kernel
+
+/-! ## rescans on a live context -/
+
+/-- **xmp_set_player(XMP_PLAYER_MODE) is atomic** (control.c since fix e307a0a: the result of the rescan
+is checked).  For every allocation oracle and every outcome of the two scans: no invalid free and
+`p->scan` is one live block on the unchanged frame whatever happens; the call is refused exactly when the
+rescan under the new mode fails (its growing realloc fails, or nothing is playable under the new mode), and
+then the code is -XMP_ERROR_INVALID, the mode in force is the OLD one, and the scan table belongs to it
+whenever the second rescan succeeds, i.e. the old mode has a playable order (it had: the module was loaded
+under it) and the growing realloc of the second rescan succeeds (`w1`: the allocator's future at that
+point); when the call is accepted the code is 0, the mode is the new one and the table belongs to it. -/
+theorem C04_set_player_mode_atomic (new old : ScanP) (oldMode newMode : Nat) (s : Tok) (w : World) (B : List Tok)
+    (hO : OwnsScan s w B) :
+    let r := setPlayerMode new old oldMode newMode (some s) w
+    let w1 := (scanSequences new.vblankCmp new.valid new.shrink (some s) w).2.2
+    r.2.2.2.2.bad = w.bad ∧ (∃ s', r.2.2.2.1 = some s' ∧ OwnsScan s' r.2.2.2.2 B) ∧
+    (r.1 < 0 → r.1 = errInvalid ∧ r.2.1 = oldMode ∧ (w.oracle.headD true = false ∨ new.valid = false) ∧
+       (old.valid = true → w1.oracle.headD true = true → r.2.2.1 = true)) ∧
+    (¬ r.1 < 0 → r.1 = 0 ∧ r.2.1 = newMode ∧ r.2.2.1 = true ∧ new.valid = true) :=
+  setPlayerMode_spec new old oldMode newMode s w B hO
+
+/-- non-trivial instances: (1) the growing realloc of the first rescan fails: refused, old mode 0, second
+rescan (VBlank comparison + shrink) fine, one scan block; (2) nothing playable under the new mode: the
+same; (3) both growing reallocs fail: refused, old mode, the untouched old block, table flagged stale -/
+example :
+    let w : World := { live := [⟨.scan, 0⟩, ⟨.xxt, 0⟩] }
+    let o : ScanP := { vblankCmp := true, shrink := true }
+    (setPlayerMode {} o 0 4 (some ⟨.scan, 0⟩) { w with oracle := [false] }).1 = errInvalid ∧
+    (setPlayerMode {} o 0 4 (some ⟨.scan, 0⟩) { w with oracle := [false] }).2.1 = 0 ∧
+    (setPlayerMode {} o 0 4 (some ⟨.scan, 0⟩) { w with oracle := [false] }).2.2.1 = true ∧
+    (setPlayerMode {} o 0 4 (some ⟨.scan, 0⟩) { w with oracle := [false] }).2.2.2.2.live = [⟨.scan, 4⟩, ⟨.xxt, 0⟩] ∧
+    (setPlayerMode { valid := false } o 0 4 (some ⟨.scan, 0⟩) w).2.1 = 0 ∧
+    (setPlayerMode { valid := false } o 0 4 (some ⟨.scan, 0⟩) w).2.2.1 = true ∧
+    (setPlayerMode {} o 0 4 (some ⟨.scan, 0⟩) { w with oracle := [false, false] }).2.2.1 = false ∧
+    (setPlayerMode {} o 0 4 (some ⟨.scan, 0⟩) { w with oracle := [false, false] }).2.2.2.2.live = w.live ∧
+    (setPlayerMode {} o 0 4 (some ⟨.scan, 0⟩) w).2.1 = 4 := by decide +kernel
+
+/-- **libxmp_scan_sequences called again** (xmp_set_player(XMP_PLAYER_MODE / XMP_PLAYER_CFLAGS),
+xmp_scan_module) is memory-atomic for every allocation oracle: no invalid free; afterwards `p->scan` is
+exactly one live block on top of the unchanged frame; when the growing realloc fails the code is negative,
+`p->scan` is the old block and the heap is untouched; a failing shrink realloc or a failing backup malloc
+of compare_vblank_scan is tolerated (code 0).  The only other negative exit is "the scan finds no valid
+order".  xmp_set_player(XMP_PLAYER_MODE) acts on the code (second conjunct = `C04_set_player_mode_atomic`:
+refused with the old mode restored and rescanned); XMP_PLAYER_CFLAGS and xmp_scan_module ignore it - the
+scan data then is the previous one. -/
+theorem C04_rescan_atomic (vblankCmp valid shrink : Bool) (new old : ScanP) (oldMode newMode : Nat)
+    (s : Tok) (w : World) (B : List Tok) (hO : OwnsScan s w B) :
+    (let r := scanSequences vblankCmp valid shrink (some s) w
+     r.2.2.bad = w.bad ∧ (∃ s', r.2.1 = some s' ∧ OwnsScan s' r.2.2 B) ∧
+     (w.oracle.headD true = false → r.1 < 0 ∧ r.2.1 = some s ∧ r.2.2.live = w.live) ∧
+     (r.1 < 0 → w.oracle.headD true = false ∨ valid = false)) ∧
+    (let r := setPlayerMode new old oldMode newMode (some s) w
+     let w1 := (scanSequences new.vblankCmp new.valid new.shrink (some s) w).2.2
+     r.2.2.2.2.bad = w.bad ∧ (∃ s', r.2.2.2.1 = some s' ∧ OwnsScan s' r.2.2.2.2 B) ∧
+     (r.1 < 0 → r.1 = errInvalid ∧ r.2.1 = oldMode ∧ (w.oracle.headD true = false ∨ new.valid = false) ∧
+        (old.valid = true → w1.oracle.headD true = true → r.2.2.1 = true)) ∧
+     (¬ r.1 < 0 → r.1 = 0 ∧ r.2.1 = newMode ∧ r.2.2.1 = true ∧ new.valid = true)) :=
+  ⟨scanSequences_spec vblankCmp valid shrink s w B hO, setPlayerMode_spec new old oldMode newMode s w B hO⟩
+
+/-- non-trivial instance: VBlank comparison and shrinking, every one of the three allocator calls failing -/
+example :
+    let w : World := { live := [⟨.scan, 0⟩, ⟨.xxt, 0⟩] }
+    (scanSequences true true true (some ⟨.scan, 0⟩) { w with oracle := [false] }).2.2.live = w.live ∧
+    (scanSequences true true true (some ⟨.scan, 0⟩) { w with oracle := [true, false] }).2.2.live = [⟨.scan, 3⟩, ⟨.xxt, 0⟩] ∧
+    (scanSequences true true true (some ⟨.scan, 0⟩) { w with oracle := [true, true, false] }).1 = 0 ∧
+    (scanSequences true true true (some ⟨.scan, 0⟩) { w with oracle := [true, true, false] }).2.2.live = [⟨.scan, 1⟩, ⟨.xxt, 0⟩] ∧
+    (scanSequences true true true (some ⟨.scan, 0⟩) w).2.2.live = [⟨.scan, 3⟩, ⟨.xxt, 0⟩] := by decide +kernel
+
+/-! ## the sound-effect mixer calls (smix.c) -/
+
+/-- **xmp_start_smix and xmp_smix_load_sample are atomic**, for every allocation oracle, every state, every
+argument class, every outcome of fopen / the size probe and every kind of WAV file, from any well-formed
+`struct smix_data` whose blocks are live (`OwnsS … B`: the heap is the frame `B` plus those blocks):
+nothing is freed twice or through a NULL table; a failing xmp_start_smix that was refused (PLAYING,
+argument out of range) or hit a failing allocation when smix was not started leaves tables, counts and
+heap as before; when smix was already started the old tables were released first (as by xmp_end_smix) and
+a failing allocation then leaves the empty smix - tables NULL, counts 0, heap exactly the frame;
+a failing xmp_smix_load_sample leaves tables, counts, heap, descriptors and temp files exactly as before. -/
+theorem C04_smix_atomic (st : State) (argsOk : Bool) (chn smp num : Nat) (fopenOk sizeOk : Bool) (wav : Wav)
+    (releaseOld : Bool) (s : Smix) (w : World) (B : List Tok) (hwf : s.wf = true) (hO : OwnsS s w B) :
+    (let r := startSmix st argsOk chn smp s w
+     r.2.2.bad = w.bad ∧ r.2.2.openFds = w.openFds ∧
+     (r.1 < 0 →
+        (r.2.1 = s ∧ ∀ u, r.2.2.live.count u = w.live.count u) ∨
+        ((s.xxi.isSome || s.xxs.isSome) = true ∧ r.2.1 = {} ∧ ∀ u, r.2.2.live.count u = B.count u))) ∧
+    (let r := smixLoadSample num fopenOk sizeOk wav releaseOld s w
+     r.2.2.bad = w.bad ∧ r.2.2.openFds = w.openFds ∧ r.2.2.tempFiles = w.tempFiles ∧
+     (r.1 < 0 → r.2.1 = s ∧ ∀ u, r.2.2.live.count u = w.live.count u)) := by
+  constructor
+  · obtain ⟨a, ⟨_, _, e3⟩, c, d⟩ := startSmix_spec st argsOk chn smp s w B hwf hO
+    refine ⟨a, e3, fun h => ?_⟩
+    by_cases hr : st = .playing ∨ argsOk = false
+    · obtain ⟨_, c2, c3⟩ := c hr
+      exact Or.inl ⟨c2, fun u => by rw [c3]⟩
+    · obtain ⟨d1, d2⟩ := (d hr).1 h
+      by_cases hs : s.xxi.isSome = true ∨ s.xxs.isSome = true
+      · exact Or.inr ⟨by simpa [Bool.or_eq_true] using hs, by rw [d1]; simp [hs], d2⟩
+      · obtain ⟨t0, _, _, _⟩ := toks_unstarted s hwf hs
+        refine Or.inl ⟨by rw [d1]; simp [hs], fun u => ?_⟩
+        have := hO u; rw [t0] at this; simp at this
+        rw [d2 u, this]
+  · obtain ⟨a, b, c, d, _⟩ := smixLoad_spec num fopenOk sizeOk wav releaseOld s w B hwf hO
+    exact ⟨a, b, c, d⟩
+
+/-- non-trivial instances: smix started with 2 slots, slot 0 loaded; (1) a restart whose second table
+allocation fails releases everything and leaves the empty smix; (2) loading slot 1 with the sample buffer
+allocation failing (3rd allocator call) leaves exactly the 4 blocks that were there -/
+example :
+    let s : Smix := { xxi := some ⟨.smixXxi, 0⟩, xxs := some ⟨.smixXxs, 0⟩, subs := [some ⟨.smixSub, 7⟩, none],
+                      datas := [some ⟨.smixData, 8⟩, none], chn := 1, ins := 2 }
+    s.wf = true ∧
+    (startSmix .loaded true 2 3 s { live := s.toks, oracle := [true, false] }).1 < 0 ∧
+    (startSmix .loaded true 2 3 s { live := s.toks, oracle := [true, false] }).2.1 = {} ∧
+    (startSmix .loaded true 2 3 s { live := s.toks, oracle := [true, false] }).2.2.live = [] ∧
+    (smixLoadSample 1 true true .ok true s { live := s.toks, oracle := [true, true, false] }).1 < 0 ∧
+    (smixLoadSample 1 true true .ok true s { live := s.toks, oracle := [true, true, false] }).2.2.live = s.toks ∧
+    (smixLoadSample 1 true true .ok true s { live := s.toks, oracle := [true, true, false] }).2.2.openFds = 0 := by
+  decide +kernel
+
+/-- **xmp_end_smix is total** (when not playing): every block the tables refer to is freed exactly once,
+tables NULL, counts 0; while PLAYING it is a no-op (voices may reference the samples). -/
+theorem C04_smix_end_total (st : State) (s : Smix) (w : World) (B : List Tok) (hwf : s.wf = true) (hO : OwnsS s w B) :
+    let r := endSmix st s w
+    (st = .playing → r = (s, w)) ∧
+    (st ≠ .playing → r.1 = {} ∧ r.2.bad = w.bad ∧ ∀ u, r.2.live.count u = B.count u) := by
+  refine ⟨fun h => by simp [endSmix, h], fun h => ?_⟩
+  obtain ⟨a, b, c, _⟩ := endSmix_spec st s w B h hwf hO
+  exact ⟨a, b, c⟩
+
+/-- **A successful xmp_smix_load_sample**: the slot owns the two new blocks; what it held before is freed
+when the commit releases it (`releaseOld`, the code since fix 29ba45a; regenerated flag
+`Gen.StartCfg.smixLoadReleasesOld`) and is otherwise still live but unreferenced - leaked. -/
+theorem C04_smix_load_ok (num : Nat) (fopenOk sizeOk : Bool) (wav : Wav) (releaseOld : Bool) (s : Smix) (w : World)
+    (B : List Tok) (hwf : s.wf = true) (hO : OwnsS s w B) :
+    let r := smixLoadSample num fopenOk sizeOk wav releaseOld s w
+    ¬ r.1 < 0 → r.1 = 0 ∧ r.2.1.wf = true ∧ r.2.1.ins = s.ins ∧ r.2.1.chn = s.chn ∧
+      ∀ u, r.2.2.live.count u = B.count u + r.2.1.toks.count u
+        + (if releaseOld then 0 else (ptrs [s.datas.getD num none, s.subs.getD num none]).count u) := by
+  intro r h
+  obtain ⟨_, _, _, _, e⟩ := smixLoad_spec num fopenOk sizeOk wav releaseOld s w B hwf hO
+  obtain ⟨e1, _, _, _, _, e6, e7, e8, e9⟩ := e h
+  exact ⟨e1, e6, e7, e8, e9⟩
+
+/-- the leak of the code before fix 29ba45a (no release at commit time): start, load slot 0 twice, end -
+two blocks stay live; with the release nothing does (replayed on the real code by the harness) -/
+theorem C04_smix_occupied_leak :
+    (let r0 := startSmix .loaded true 1 2 {} {}
+     let r1 := smixLoadSample 0 true true .ok false r0.2.1 r0.2.2
+     let r2 := smixLoadSample 0 true true .ok false r1.2.1 r1.2.2
+     (endSmix .loaded r2.2.1 r2.2.2).2.live.length = 2) ∧
+    (let r0 := startSmix .loaded true 1 2 {} {}
+     let r1 := smixLoadSample 0 true true .ok true r0.2.1 r0.2.2
+     let r2 := smixLoadSample 0 true true .ok true r1.2.1 r1.2.2
+     (endSmix .loaded r2.2.1 r2.2.2).2.live = [] ∧ (endSmix .loaded r2.2.1 r2.2.2).2.bad = 0) := by
+  decide +kernel
+
 end Xmp.Resource
+
+/-! ## Reusable after a failed start, member by member (with the reset theorems of C06)
+
+`XmpModel.StartFail.failedStart` is the image of `struct context_data` after xmp_start_player failed at
+an acquisition site: the writes of the success path (C06's `Reset.startCore` / `mixerOn`) up to the
+failing statement, then the release actions of the unwinding table of C04 (`StartCfg.cleanup`, generated
+from player.c).  `vfr` says whether libxmp_virt_on's failure path zeroes the counts it set (generated
+from virtual.c). -/
+namespace Xmp.StartFail
+open Xmp.Reset Xmp.Gen.CtxFields
+open Xmp.Resource (Site StartCfg startCfgFixed)
+
+/-- **C04 reusable, same module.**  For EVERY unwinding table, failure site and external behaviour: the
+failing call changes no member the next start depends on (`Reset.B`) - it writes only members that
+`xmp_start_player` / `libxmp_mixer_on` rewrite - so with C06's restart theorem the next
+xmp_start_player (any rate/format) on the same context yields the player view it yields on the context
+the failing call started from.  Hypotheses: the module has a playable order, so that the start leaves
+`mod->len` alone (`hlen`, `hne`), and the scan reached the start order (C06's `hlive`, `hspeed`). -/
+theorem C04_reusable_restart_view (cfg : StartCfg) (X : Ext) (r fm r' fm' : Int) (site : Site) (second vfr : Bool) (L : Ctx)
+    (hlen : L .m_mod_len = cst (startLen L)) (hne : startLen L ≠ 0)
+    (hlive : L .m_xxo_info_time (startOrd L) ≠ -1) (hspeed : L .m_xxo_info_speed (startOrd L) ≠ 0) :
+    playerView (startPlayer X r' fm' L)
+      = playerView (startPlayer X r' fm' (failedStart cfg X r fm site second vfr L)) :=
+  C06_restart_independent X r' fm' L _ (failedStart_agreeB cfg X r fm site second vfr L hlen hne)
+    (failedStart_partial cfg X r fm site second vfr L) hlive hspeed
+
+/-- non-trivial instance: the context C06 uses as "dirty and played for a while" (state PLAYING), a failure
+at the channel table after the implicit xmp_end_player -/
+example : playerView (startPlayer exampleExt 44100 0 (played (startPlayer exampleExt 22050 4 (load exampleExt dirty))))
+    = playerView (startPlayer exampleExt 44100 0
+        (failedStart startCfgFixed exampleExt 8000 1 .xcData false false
+          (played (startPlayer exampleExt 22050 4 (load exampleExt dirty))))) := by
+  apply C04_reusable_restart_view
+  · funext i; rfl
+  · decide
+  · decide
+  · decide
+
+/-- **The context after a failed start is a well-formed idle context** (C06's invariant `WF`: the player
+resources are NULL / 0 whenever the context is not playing, state < PLAYING) for every failure site at
+which the decidable condition `idleAfter` holds; the check evaluates it on the generated table and flag
+on every run. -/
+theorem C04_failed_start_wf (cfg : StartCfg) (X : Ext) (r fm : Int) (site : Site) (second vfr : Bool) (s0 : Ctx)
+    (hw : WF s0) (hid : idleAfter cfg site vfr = true) : WF (failedStart cfg X r fm site second vfr s0) :=
+  failedStart_wf cfg X r fm site second vfr s0 hw hid
+
+/-- **C04 reusable, another module** ("lets the same context load and play another module normally").
+After a failure at a site with `idleAfter`, loading ANY module `X'` on the same context and starting it
+gives the player view of a fresh context with the same persistent settings (C06_history_independent), and
+in state LOADED `xmp_get_frame_info` reports the same as on the fresh one (C06_loaded_view). -/
+theorem C04_reusable_reload_view (cfg : StartCfg) (X X' : Ext) (r fm r' fm' : Int) (site : Site) (second vfr : Bool)
+    (s0 F : Ctx) (hw : WF s0) (hid : idleAfter cfg site vfr = true) (hP : AgreeOn Persistent s0 F) (wF : WF F)
+    (hlive : load X' (failedStart cfg X r fm site second vfr s0) .m_xxo_info_time
+      (startOrd (load X' (failedStart cfg X r fm site second vfr s0))) ≠ -1)
+    (hspeed : load X' (failedStart cfg X r fm site second vfr s0) .m_xxo_info_speed
+      (startOrd (load X' (failedStart cfg X r fm site second vfr s0))) ≠ 0) :
+    playerView (startPlayer X' r' fm' (load X' (failedStart cfg X r fm site second vfr s0)))
+      = playerView (startPlayer X' r' fm' (load X' F))
+    ∧ (∀ f, InfoField f = true → load X' (failedStart cfg X r fm site second vfr s0) f = load X' F f) := by
+  have hP' : AgreeOn Persistent (failedStart cfg X r fm site second vfr s0) F := by
+    intro f hf
+    rw [← failedStart_persistent cfg X r fm site second vfr s0 f hf]
+    exact hP f hf
+  have hwf := failedStart_wf cfg X r fm site second vfr s0 hw hid
+  exact ⟨C06_history_independent X' r' fm' _ F hP' hwf wF hlive hspeed, (C06_loaded_view X' _ F hP' hwf wF).1⟩
+
+/-- the repaired table of player.c releases enough at every site once libxmp_virt_on's failure path
+resets its counts; without that reset the site `virtOn` is the one exception -/
+theorem C04_idle_fixed :
+    (∀ site, idleAfter startCfgFixed site true = true) ∧
+    (∀ site, site ≠ .virtOn → idleAfter startCfgFixed site false = true) ∧
+    idleAfter startCfgFixed .virtOn false = false := by
+  refine ⟨fun site => by cases site <;> decide, fun site h => by cases site <;> first | decide | exact absurd rfl h, by decide⟩
+
+/-- non-trivial instance: failure at `f->loop` after a dirty context was loaded, then a reload -/
+example : playerView (startPlayer exampleExt 44100 0 (load exampleExt
+      (failedStart startCfgFixed exampleExt 8000 1 .flowLoop false false (load exampleExt dirty))))
+    = playerView (startPlayer exampleExt 44100 0 (load exampleExt (createContext 1))) := by
+  refine (C04_reusable_reload_view startCfgFixed exampleExt exampleExt 8000 1 44100 0 .flowLoop false false
+    (load exampleExt dirty) (createContext 1) ?_ (by decide) ?_ (wf_create 1) (by decide) (by decide)).1
+  · constructor
+    · intro _ f hf; cases f <;> first | rfl | exact absurd hf (by decide)
+    · intro h; exact absurd h (by decide)
+  · intro f hf; cases f <;> first | rfl | exact absurd hf (by decide)
+
+/-- **Finding `residue:virt_counts`.**  libxmp_virt_on sets `num_tracks`, `virt_channels` and `maxvoc`
+before its first allocation and its failure path keeps them (`vfr = false`); xmp_start_player then only
+runs libxmp_mixer_off.  The context is LOADED with `virt_channels = 4` and a NULL voice array: C06's idle
+invariant is broken, the value survives xmp_release_module + a reload, and `xmp_get_frame_info` in state
+LOADED reports 4 virtual channels where a fresh context reports 0.  With the reset in libxmp_virt_on
+(`vfr = true`, proposed_fixes/c04-virt-on-counts.diff) the same failure leaves a well-formed context. -/
+theorem C04_virt_counts_residue :
+    let L := load exampleExt (createContext 1)
+    let P := failedStart startCfgFixed exampleExt 44100 0 .virtOn false false L
+    P .state 0 = K.XMP_STATE_LOADED ∧ P .p_virt_virt_channels 0 = 4 ∧ P .p_virt_maxvoc 0 = 4 ∧
+    P .p_virt_voice_array 0 = 0 ∧ ¬ WF P ∧
+    load exampleExt P .p_virt_virt_channels 0 = 4 ∧ load exampleExt (createContext 1) .p_virt_virt_channels 0 = 0 ∧
+    WF (failedStart startCfgFixed exampleExt 44100 0 .virtOn false true L) := by
+  refine ⟨by decide, by decide, by decide, by decide, ?_, by decide, by decide, ?_⟩
+  · intro h
+    have := h.idle (by decide) .p_virt_virt_channels rfl
+    have := congrFun this 0
+    revert this
+    decide
+  · apply failedStart_wf
+    · constructor
+      · intro _ f hf; cases f <;> first | rfl | exact absurd hf (by decide)
+      · intro h; exact absurd h (by decide)
+    · decide
+
+end Xmp.StartFail
+
